@@ -33,7 +33,7 @@ Fixpoint uv_loop (x : list Z) (b : Z) (i : nat) (u : list Z) : list Z :=
 
 (** Python's int.bit_length *)
 Definition bit_length (b : Z) : nat :=
-  match b with Z0 => O | Zpos q => Pos.size_nat q | Zneg q => Pos.size_nat q end.
+  match b with Z0 => O | _ => Z.to_nat (Z.succ (Z.log2 (Z.abs b))) end.
 
 (** [x] = the k bits of a (the code takes them from to_bits(a, k + f)[f:]) *)
 Definition unit_vector_x (x : list Z) (n : Z) : list Z :=
@@ -85,9 +85,29 @@ Fixpoint cl (fuel : nat) (x : arr) (cs_f : Z -> Z -> list Z) (i j : nat) : list 
       if_else_list (hd 0 nf) (cl fuel' x cs_f h j) nf
   end.
 
-(** cs_f computed from f by (**) *)
+(** cs_f computed from f by the docstring's rule (2-star): b (f(i+1) - f(i)) + f(i) *)
 Definition cs_of_f (f : Z -> list Z) : Z -> Z -> list Z :=
   fun b i => zipw (fun f_i f_i1 => b * (f_i1 - f_i) + f_i) (f i) (f (i + 1)).
+
+(** the part of find after the arguments have been resolved: x1 = reduced list, ev = evaluated e *)
+Definition find_core (x1 : list Z) (ev : option Z) (f' : Z -> list Z) (cs' : Z -> Z -> list Z)
+  : option (option Z * list Z) :=
+  let n := length x1 in
+  match x1 with
+  | [] => match ev with
+          | None => Some (Some 1, f' 0)                     (* nf, y = 1, f(0) *)
+          | Some e => Some (None, f' e)                     (* y = f(e) *)
+          end
+  | _ :: _ =>
+    match cl n (arr_of x1) cs' 0 n with                     (* nf, *f_ix = cl(0, len(x)) *)
+    | [] => None
+    | nf :: f_ix =>
+      match ev with
+      | None => Some (Some nf, f_ix)
+      | Some e => Some (None, if_else_list nf (f' e) f_ix)  (* if_else(nf, f_e, f_ix) *)
+      end
+    end
+  end.
 
 (** Result: [None] = the call raises; [Some (Some nf, y)] = raw mode pair; [Some (None, y)] = y.
     Values of f / cs_f are lists (an int-valued f is wrapped in a singleton, as the code does;
@@ -116,21 +136,7 @@ Definition find (x : list Z) (a : aarg) (bits : bool) (e : earg)
               | EStr off => Some (Z.of_nat n + off)
               | EVal v => Some v
               end in
-    match x1 with
-    | [] => match ev with
-            | None => Some (Some 1, f' 0)
-            | Some e => Some (None, f' e)
-            end
-    | _ :: _ =>
-      match cl n (arr_of x1) cs' 0 n with
-      | [] => None
-      | nf :: f_ix =>
-        match ev with
-        | None => Some (Some nf, f_ix)
-        | Some e => Some (None, if_else_list nf (f' e) f_ix)
-        end
-      end
-    end
+    find_core x1 ev f' cs'
   end.
 
 (* ------------------------------------------------------------------------------------- *)
@@ -144,3 +150,578 @@ Definition gcp2 (p : Z) (L : nat) (A B : Z) (l : nat) (ra : list Z) (da : Z) (rb
   | Some (_, f_i :: _) => Some f_i
   | _ => None
   end.
+
+(* ===================================================================================== *)
+(** * Proofs *)
+
+Local Arguments Z.mul : simpl never.
+Local Arguments Z.add : simpl never.
+Local Arguments Z.sub : simpl never.
+Local Arguments Z.pow : simpl never.
+Local Arguments Z.div : simpl never.
+Local Arguments Z.modulo : simpl never.
+Local Arguments Z.of_nat : simpl never.
+Local Arguments Z.to_nat : simpl never.
+
+Lemma zsum_cons a u : zsum (a :: u) = a + zsum u.
+Proof.
+  unfold zsum. cbn [fold_left].
+  assert (G : forall l s, fold_left Z.add l s = s + fold_left Z.add l 0).
+  { induction l as [|c l IH]; intros s; cbn [fold_left]; [lia|]. rewrite IH, (IH (0 + c)). lia. }
+  rewrite G. lia.
+Qed.
+
+Lemma zsum_map_mul c u : zsum (map (fun d => c * d) u) = c * zsum u.
+Proof.
+  induction u as [|a u IH]; [unfold zsum; cbn; lia|].
+  cbn [map]. rewrite !zsum_cons, IH. ring.
+Qed.
+
+(* ------------------------------------------------------------------------------------- *)
+(** ** unit_vector *)
+
+(** the vector of length B with a 1 at position A - 1 (all zero if A - 1 is out of range) *)
+Fixpoint unitv (A : Z) (B : nat) : list Z :=
+  match B with O => [] | S B' => (if A =? 1 then 1 else 0) :: unitv (A - 1) B' end.
+
+Lemma unitv_length A B : length (unitv A B) = B.
+Proof. revert A; induction B as [|B IH]; intros A; cbn [unitv length]; auto. Qed.
+
+Lemma nth_unitv B : forall A i, (i < B)%nat ->
+  nth i (unitv A B) 0 = if Z.of_nat i =? A - 1 then 1 else 0.
+Proof.
+  induction B as [|B IH]; intros A i Hi; [lia|].
+  destruct i as [|i]; cbn [unitv nth].
+  - destruct (Z.eqb_spec A 1), (Z.eqb_spec (Z.of_nat 0) (A - 1)); lia.
+  - rewrite IH by lia. destruct (Z.eqb_spec (Z.of_nat i) (A - 1 - 1)), (Z.eqb_spec (Z.of_nat (S i)) (A - 1)); lia.
+Qed.
+
+Lemma zsum_unitv B : forall A,
+  zsum (unitv A B) = if ((1 <=? A) && (A <=? Z.of_nat B))%bool then 1 else 0.
+Proof.
+  induction B as [|B IH]; intros A.
+  - unfold zsum. cbn. destruct (Z.leb_spec 1 A), (Z.leb_spec A (Z.of_nat 0)); cbn [andb]; lia.
+  - cbn [unitv]. rewrite zsum_cons, IH.
+    destruct (Z.eqb_spec A 1), (Z.leb_spec 1 (A - 1)), (Z.leb_spec (A - 1) (Z.of_nat B)),
+      (Z.leb_spec 1 A), (Z.leb_spec A (Z.of_nat (S B))); cbn [andb]; lia.
+Qed.
+
+Lemma removelast_unitv m : forall A, removelast (unitv A (S m)) = unitv A m.
+Proof.
+  induction m as [|m IH]; intros A; [reflexivity|].
+  change (unitv A (S (S m))) with ((if A =? 1 then 1 else 0) :: unitv (A - 1) (S m)).
+  change (unitv A (S m)) with ((if A =? 1 then 1 else 0) :: unitv (A - 1) m).
+  rewrite <- IH. cbn [unitv]. reflexivity.
+Qed.
+
+Lemma interleave_maps xi u :
+  interleave (zipw Z.sub u (map (fun c => xi * c) u)) (map (fun c => xi * c) u)
+  = flat_map (fun c => [c - xi * c; xi * c]) u.
+Proof.
+  induction u as [|a u IH]; [reflexivity|].
+  cbn [map zipw interleave flat_map app]. rewrite IH. reflexivity.
+Qed.
+
+Lemma flat_unitv xi B : isbit xi -> forall A,
+  flat_map (fun c => [c - xi * c; xi * c]) (unitv A B) = unitv (2 * A + xi - 1) (2 * B).
+Proof.
+  intros Hx. induction B as [|B IH]; intros A; [reflexivity|].
+  replace (2 * S B)%nat with (S (S (2 * B))) by lia.
+  cbn [unitv flat_map app]. rewrite IH.
+  replace (2 * A + xi - 1 - 1 - 1) with (2 * (A - 1) + xi - 1) by ring.
+  f_equal; [|f_equal].
+  - destruct Hx as [-> | ->], (Z.eqb_spec A 1), (Z.eqb_spec (2 * A + 0 - 1) 1), (Z.eqb_spec (2 * A + 1 - 1) 1); lia.
+  - destruct Hx as [-> | ->], (Z.eqb_spec A 1), (Z.eqb_spec (2 * A + 0 - 1 - 1) 1), (Z.eqb_spec (2 * A + 1 - 1 - 1) 1); lia.
+Qed.
+
+(** one loop iteration maps the invariant for (A, B) to the invariant for (2A + x_i, 2B + b_i) *)
+Lemma uv_step_unitv xi bb A B :
+  isbit xi -> isbit bb -> 0 <= A -> (A <= Z.of_nat B \/ xi = 0) ->
+  uv_step xi bb (unitv A B) = unitv (2 * A + xi) (2 * B + Z.to_nat bb).
+Proof.
+  intros Hx Hb HA Hc. unfold uv_step.
+  rewrite interleave_maps, zsum_map_mul, zsum_unitv, flat_unitv by exact Hx.
+  assert (E : (xi - xi * (if ((1 <=? A) && (A <=? Z.of_nat B))%bool then 1 else 0))
+                :: unitv (2 * A + xi - 1) (2 * B) = unitv (2 * A + xi) (S (2 * B))).
+  { cbn [unitv]. f_equal.
+    destruct Hx as [-> | ->], (Z.leb_spec 1 A), (Z.leb_spec A (Z.of_nat B)),
+      (Z.eqb_spec (2 * A + 0) 1), (Z.eqb_spec (2 * A + 1) 1); cbn [andb]; lia. }
+  rewrite E. destruct Hb as [-> | ->].
+  - rewrite Z.eqb_refl. rewrite removelast_unitv. f_equal. change (Z.to_nat 0) with O. lia.
+  - change (1 =? 0) with false. cbv iota. f_equal. change (Z.to_nat 1) with 1%nat. lia.
+Qed.
+
+Lemma bit_at_isbit c i : isbit (bit_at c i).
+Proof. rewrite bit_at_spec. unfold isbit. lia. Qed.
+
+Lemma div_pow2_succ c i : c / 2 ^ Z.of_nat i = 2 * (c / 2 ^ Z.of_nat (S i)) + (c / 2 ^ Z.of_nat i) mod 2.
+Proof.
+  rewrite Nat2Z.inj_succ, Z.pow_succ_r by lia.
+  rewrite (Z.mul_comm 2 (2 ^ Z.of_nat i)).
+  rewrite <- (Z.div_div c (2 ^ Z.of_nat i) 2) by (try apply pow2_pos; lia).
+  apply Z.div_mod. lia.
+Qed.
+
+Lemma uv_loop_inv a b k : 0 <= a -> 0 <= b ->
+  forall i u, (i <= k)%nat ->
+    u = unitv (a / 2 ^ Z.of_nat i) (Z.to_nat (b / 2 ^ Z.of_nat i)) ->
+    (forall j, (j < i)%nat -> a / 2 ^ Z.of_nat (S j) <= b / 2 ^ Z.of_nat (S j) \/ (a / 2 ^ Z.of_nat j) mod 2 = 0) ->
+    uv_loop (bits_of a k) b i u = unitv a (Z.to_nat b).
+Proof.
+  intros Ha Hb. induction i as [|i IH]; intros u Hi Hu Hc.
+  - cbn [uv_loop]. subst u. change (Z.of_nat 0) with 0. rewrite Z.pow_0_r, !Z.div_1_r. reflexivity.
+  - cbn [uv_loop]. apply IH; [lia| |intros j Hj; apply Hc; lia].
+    subst u. rewrite nth_bits_of by lia.
+    pose proof (pow2_pos (S i)) as Pp.
+    assert (HA : 0 <= a / 2 ^ Z.of_nat (S i)) by (apply Z.div_pos; lia).
+    assert (HB : 0 <= b / 2 ^ Z.of_nat (S i)) by (apply Z.div_pos; lia).
+    rewrite uv_step_unitv.
+    + rewrite <- div_pow2_succ. f_equal.
+      rewrite (div_pow2_succ b i). rewrite <- bit_at_spec.
+      pose proof (bit_at_isbit b i) as Hbit.
+      rewrite Z2Nat.inj_add by (destruct Hbit; lia).
+      rewrite Z2Nat.inj_mul by lia. reflexivity.
+    + unfold isbit. lia.
+    + apply bit_at_isbit.
+    + exact HA.
+    + rewrite Z2Nat.id by exact HB. apply Hc. lia.
+Qed.
+
+Lemma bit_length_spec b : 0 <= b -> b / 2 ^ Z.of_nat (bit_length b) = 0.
+Proof.
+  intros Hb. destruct b as [|q|q]; [reflexivity| |lia].
+  unfold bit_length. cbn [Z.abs].
+  pose proof (Z.log2_spec (Z.pos q) ltac:(lia)) as [_ H].
+  pose proof (Z.log2_nonneg (Z.pos q)).
+  rewrite Z2Nat.id by lia. apply Z.div_small. lia.
+Qed.
+
+(** general form: valid whenever, going down the bits, a's prefix never exceeds b's prefix
+    unless the next bit of a is 0 *)
+Lemma unit_vector_gen a n : 0 <= a -> 1 <= n ->
+  (forall j, a / 2 ^ Z.of_nat (S j) <= (n - 1) / 2 ^ Z.of_nat (S j) \/ (a / 2 ^ Z.of_nat j) mod 2 = 0) ->
+  unit_vector a n = (if a <=? n - 1 then (if a =? 0 then 1 else 0) else 1) :: unitv a (Z.to_nat (n - 1)).
+Proof.
+  intros Ha Hn Hc. unfold unit_vector, unit_vector_x.
+  rewrite (uv_loop_inv a (n - 1) (bit_length (n - 1)) Ha ltac:(lia) (bit_length (n - 1)) []).
+  - f_equal. rewrite zsum_unitv. rewrite Z2Nat.id by lia.
+    destruct (Z.leb_spec 1 a), (Z.leb_spec a (n - 1)), (Z.eqb_spec a 0); cbn [andb]; lia.
+  - lia.
+  - rewrite bit_length_spec by lia. reflexivity.
+  - intros j _. apply Hc.
+Qed.
+
+(** ** unit_vector a n is the a-th unit vector of length n, for all n and all 0 <= a < n *)
+Theorem unit_vector_correct a n : 0 <= a < n ->
+  length (unit_vector a n) = Z.to_nat n /\
+  forall i, (i < Z.to_nat n)%nat ->
+    nth i (unit_vector a n) 0 = if Z.of_nat i =? a then 1 else 0.
+Proof.
+  intros Han.
+  rewrite unit_vector_gen; [| lia | lia |].
+  - split.
+    + cbn [length]. rewrite unitv_length. lia.
+    + intros i Hi. destruct (Z.leb_spec a (n - 1)); [|lia].
+      destruct i as [|i]; cbn [nth].
+      * destruct (Z.eqb_spec a 0), (Z.eqb_spec (Z.of_nat 0) a); lia.
+      * rewrite nth_unitv by lia.
+        destruct (Z.eqb_spec (Z.of_nat i) (a - 1)), (Z.eqb_spec (Z.of_nat (S i)) a); lia.
+  - intros j. left. apply Z.div_le_mono; [apply pow2_pos | lia].
+Qed.
+
+(** ** the documented wrap: a = n gives [1] + [0]*(n-1) *)
+Theorem unit_vector_wrap n : 1 <= n -> unit_vector n n = 1 :: repeat 0 (Z.to_nat (n - 1)).
+Proof.
+  intros Hn. rewrite unit_vector_gen; [| lia | lia |].
+  - destruct (Z.leb_spec n (n - 1)); [lia|]. f_equal.
+    apply nth_ext with (d := 0) (d' := 0).
+    + rewrite unitv_length, repeat_length. reflexivity.
+    + intros i Hi. rewrite unitv_length in Hi. rewrite nth_unitv by exact Hi. rewrite nth_repeat.
+      destruct (Z.eqb_spec (Z.of_nat i) (n - 1)); lia.
+  - intros j.
+    set (P := 2 ^ Z.of_nat j). assert (HP : 0 < P) by apply pow2_pos.
+    rewrite Nat2Z.inj_succ, Z.pow_succ_r by lia. fold P.
+    (* n = (2P) q + r; if r = 0 then n / P = 2 q is even, else (n-1) / (2P) = q as well *)
+    pose proof (Z.div_mod n (2 * P) ltac:(lia)) as Dn.
+    pose proof (Z.mod_pos_bound n (2 * P) ltac:(lia)) as Bn.
+    set (q := n / (2 * P)) in *. set (r := n mod (2 * P)) in *. clearbody q r.
+    destruct (Z.eq_dec r 0) as [Hr|Hr].
+    + right. replace n with ((2 * q) * P) by lia. rewrite Z.div_mul by lia.
+      rewrite Z.mul_comm. apply Z.mod_mul. lia.
+    + left. assert (E : (n - 1) / (2 * P) = q).
+      { symmetry. apply Z.div_unique with (r := r - 1); lia. }
+      rewrite E. lia.
+Qed.
+
+(* ------------------------------------------------------------------------------------- *)
+(** ** find *)
+
+(** index of the first occurrence of a in x; length x if absent *)
+Fixpoint first_idx (a : Z) (x : list Z) : nat :=
+  match x with [] => O | b :: x' => if b =? a then O else S (first_idx a x') end.
+
+(** first k in [i, i+len) with x k = 0; i+len if none *)
+Fixpoint first0 (x : arr) (i len : nat) : nat :=
+  match len with O => i | S len' => if x i =? 0 then i else first0 x (S i) len' end.
+
+Lemma first0_bounds x len : forall i, (i <= first0 x i len <= i + len)%nat.
+Proof.
+  induction len as [|len IH]; intros i; cbn [first0]; [lia|].
+  destruct (x i =? 0); [lia|]. specialize (IH (S i)). lia.
+Qed.
+
+Lemma first0_split x a : forall i b,
+  first0 x i (a + b) = if (first0 x i a =? i + a)%nat then first0 x (i + a) b else first0 x i a.
+Proof.
+  induction a as [|a IH]; intros i b.
+  - cbn [Nat.add first0]. rewrite Nat.add_0_r, Nat.eqb_refl. reflexivity.
+  - cbn [Nat.add first0]. destruct (x i =? 0).
+    + destruct (Nat.eqb_spec i (i + S a)); [lia|reflexivity].
+    + rewrite IH. replace (S i + a)%nat with (i + S a)%nat by lia. reflexivity.
+Qed.
+
+Lemma first0_shift b l : forall i len, first0 (arr_of (b :: l)) (S i) len = S (first0 (arr_of l) i len).
+Proof.
+  intros i len. revert i. induction len as [|len IH]; intros i; cbn [first0]; [reflexivity|].
+  change (arr_of (b :: l) (S i)) with (arr_of l i). destruct (arr_of l i =? 0); [reflexivity|]. apply IH.
+Qed.
+
+Lemma first0_first_idx l : first0 (arr_of l) 0 (length l) = first_idx 0 l.
+Proof.
+  induction l as [|b l IH]; [reflexivity|].
+  cbn [length first0 first_idx]. change (arr_of (b :: l) 0%nat) with b.
+  destruct (b =? 0); [reflexivity|]. rewrite first0_shift, IH. reflexivity.
+Qed.
+
+Lemma first_idx_le a x : (first_idx a x <= length x)%nat.
+Proof. induction x as [|b x IH]; cbn [first_idx length]; [lia|]. destruct (b =? a); lia. Qed.
+
+Lemma zipw_length {A B C} (g : A -> B -> C) x : forall y, length y = length x -> length (zipw g x y) = length x.
+Proof.
+  induction x as [|a x IH]; intros [|b y] H; cbn [zipw length] in *; try lia. rewrite IH; lia.
+Qed.
+
+Lemma if_else_list_1 x : forall y, length y = length x -> if_else_list 1 x y = x.
+Proof.
+  unfold if_else_list. induction x as [|a x IH]; intros [|b y] H; cbn [zipw length] in *; try lia; try reflexivity.
+  rewrite IH by lia. f_equal; try ring.
+Qed.
+
+Lemma if_else_list_0 x : forall y, length y = length x -> if_else_list 0 x y = y.
+Proof.
+  unfold if_else_list. induction x as [|a x IH]; intros [|b y] H; cbn [zipw length] in *; try lia; try reflexivity.
+  rewrite IH by lia. f_equal; try ring.
+Qed.
+
+Section FindCore.
+Variable f' : Z -> list Z.
+Variable cs' : Z -> Z -> list Z.
+Hypothesis cs0 : forall i, cs' 0 i = f' i.
+Hypothesis cs1 : forall i, 0 <= i -> cs' 1 i = f' (i + 1).               (* the docstring's (star): cs_f(b, i) = f(i + b) *)
+Hypothesis flen : forall i j, length (f' i) = length (f' j).
+
+(** cl(i, j) = [not found in x[i:j]] + f(index of the first 0 in x[i:j], or j) *)
+Lemma cl_spec (x : arr) fuel : forall i j, (i < j)%nat -> (j - i <= fuel)%nat ->
+  (forall k, (i <= k < j)%nat -> isbit (x k)) ->
+  cl fuel x cs' i j
+  = (if (first0 x i (j - i) =? j)%nat then 1 else 0) :: f' (Z.of_nat (first0 x i (j - i))).
+Proof.
+  induction fuel as [|fuel IH]; intros i j Hij Hfuel Hb; [lia|].
+  cbn [cl]. destruct (Nat.eqb_spec (j - i) 1) as [E|E].
+  - assert (j = S i) by lia. subst j. rewrite E. cbn [first0].
+    destruct (Hb i ltac:(lia)) as [H0|H1].
+    + rewrite H0. change (0 =? 0) with true. cbv iota.
+      destruct (Nat.eqb_spec i (S i)); [lia|]. rewrite cs0. reflexivity.
+    + rewrite H1. change (1 =? 0) with false. cbv iota. rewrite Nat.eqb_refl, cs1 by lia.
+      rewrite Nat2Z.inj_succ. reflexivity.
+  - set (h := (i + (j - i) / 2)%nat).
+    assert (Hh : (i < h < j)%nat) by (unfold h; apply half_split; lia). clearbody h.
+    rewrite (IH i h) by (try lia; intros; apply Hb; lia).
+    rewrite (IH h j) by (try lia; intros; apply Hb; lia).
+    cbn [hd].
+    replace (j - i)%nat with ((h - i) + (j - h))%nat by lia.
+    rewrite first0_split. replace (i + (h - i))%nat with h by lia.
+    pose proof (first0_bounds x (h - i) i) as B1.
+    destruct (Nat.eqb_spec (first0 x i (h - i)) h) as [F|F].
+    + apply if_else_list_1. cbn [length]. f_equal. apply flen.
+    + rewrite if_else_list_0 by (cbn [length]; f_equal; apply flen).
+      destruct (Nat.eqb_spec (first0 x i (h - i)) j); [lia|reflexivity].
+Qed.
+
+(** ** find on the reduced list: f(index of the first 0), or f(e) if there is none; raw mode
+    returns the not-found bit and f(index) (f(len x) if not found) *)
+Theorem find_core_correct x1 ev : allbits x1 ->
+  let ix := first_idx 0 x1 in
+  let found := (ix <? length x1)%nat in
+  find_core x1 ev f' cs'
+  = Some (match ev with
+          | None => (Some (if found then 0 else 1), f' (Z.of_nat ix))
+          | Some e => (None, if found then f' (Z.of_nat ix) else f' e)
+          end).
+Proof.
+  intros Hb ix found. subst ix found. unfold find_core.
+  destruct x1 as [|b0 x'].
+  - cbn. destruct ev; reflexivity.
+  - cbv iota. set (x1 := b0 :: x') in *.
+    assert (Hn : (1 <= length x1)%nat) by (unfold x1; cbn [length]; lia). clearbody x1.
+    rewrite cl_spec; try lia.
+    + rewrite Nat.sub_0_r, first0_first_idx.
+      pose proof (first_idx_le 0 x1) as Hle.
+      destruct (Nat.eqb_spec (first_idx 0 x1) (length x1)) as [E|E];
+        destruct (Nat.ltb_spec (first_idx 0 x1) (length x1)) as [L|L]; try lia.
+      * destruct ev as [e|]; [|reflexivity]. rewrite if_else_list_1 by apply flen. reflexivity.
+      * destruct ev as [e|]; [|reflexivity]. rewrite if_else_list_0 by apply flen. reflexivity.
+    + intros k _. apply allbits_nth. exact Hb.
+Qed.
+End FindCore.
+
+(** cs_f computed from f by rule (2-star) satisfies (star) *)
+Lemma zipw_swap_if c (x y : list Z) :
+  zipw (fun f_i f_i1 => c * (f_i1 - f_i) + f_i) x y = if_else_list c y x.
+Proof.
+  unfold if_else_list. revert y. induction x as [|a x IH]; intros [|b y]; cbn [zipw]; try reflexivity.
+  rewrite IH. reflexivity.
+Qed.
+
+Lemma cs_of_f_spec f : (forall i j, length (f i) = length (f j)) ->
+  (forall i, cs_of_f f 0 i = f i) /\ (forall i, cs_of_f f 1 i = f (i + 1)).
+Proof.
+  intros Hl. split; intros i; unfold cs_of_f; rewrite zipw_swap_if.
+  - apply if_else_list_0. apply Hl.
+  - apply if_else_list_1. apply Hl.
+Qed.
+
+(** *** the reduction to "first 0" *)
+Definition aval (a : aarg) : Z := match a with AInt a => a | ASec a => a end.
+
+Lemma zipw_repeat_l {B C} (g : Z -> B -> C) c (x : list B) : zipw g (repeat c (length x)) x = map (g c) x.
+Proof. induction x as [|b x IH]; cbn [length repeat zipw map]; [reflexivity|]. rewrite IH. reflexivity. Qed.
+
+Lemma find_reduce_map x a bits : (bits = true -> isbit (aval a)) ->
+  find_reduce x a bits
+  = map (fun b => if bits then (if aval a =? 1 then 1 - b else b) else (if b =? aval a then 0 else 1)) x.
+Proof.
+  intros Ha. unfold find_reduce. destruct bits; [|destruct a; reflexivity].
+  specialize (Ha eq_refl). destruct a as [a|a]; cbn [aval] in *.
+  - destruct (a =? 1); [apply zipw_repeat_l|]. symmetry. apply map_id.
+  - rewrite <- (map_length (fun b => (1 - 2 * a) * b) x). rewrite zipw_repeat_l, map_map.
+    apply map_ext. intros b. destruct Ha as [-> | ->]; cbn; lia.
+Qed.
+
+Lemma first_idx_map (g : Z -> Z) a x : (forall b, In b x -> (g b =? 0) = (b =? a)) ->
+  first_idx 0 (map g x) = first_idx a x.
+Proof.
+  induction x as [|b x IH]; intros H; [reflexivity|].
+  cbn [map first_idx]. rewrite H by (left; reflexivity). destruct (b =? a); [reflexivity|].
+  f_equal. apply IH. intros c Hc. apply H. right. exact Hc.
+Qed.
+
+Definition find_wf (x : list Z) (a : aarg) (bits : bool) : Prop :=
+  (bits = true -> allbits x /\ isbit (aval a)) /\
+  ~ (bits = true /\ a = AInt 1 /\ x = []).
+
+Lemma find_reduce_spec x a bits : find_wf x a bits ->
+  allbits (find_reduce x a bits) /\ length (find_reduce x a bits) = length x /\
+  first_idx 0 (find_reduce x a bits) = first_idx (aval a) x.
+Proof.
+  intros [Hw _]. rewrite find_reduce_map by (intros E; apply Hw; exact E).
+  split; [|split].
+  - apply Forall_forall. intros c Hc. apply in_map_iff in Hc. destruct Hc as [b [<- Hb]].
+    destruct bits.
+    + destruct (Hw eq_refl) as [Hx _]. pose proof (proj1 (Forall_forall _ _) Hx b Hb) as Hbb.
+      destruct (aval a =? 1), Hbb as [-> | ->]; unfold isbit; lia.
+    + destruct (b =? aval a); unfold isbit; lia.
+  - apply map_length.
+  - apply first_idx_map. intros b Hb. destruct bits.
+    + destruct (Hw eq_refl) as [Hx Ha]. pose proof (proj1 (Forall_forall _ _) Hx b Hb) as Hbb.
+      destruct Ha as [-> | ->], Hbb as [-> | ->]; reflexivity.
+    + destruct (b =? aval a); reflexivity.
+Qed.
+
+(** the specified result of find *)
+Definition find_result (x : list Z) (av : Z) (e : earg) (F : Z -> list Z) : option Z * list Z :=
+  let ix := first_idx av x in
+  let found := (ix <? length x)%nat in
+  match e with
+  | ERaw => (Some (if found then 0 else 1), F (Z.of_nat ix))
+  | EStr off => (None, if found then F (Z.of_nat ix) else F (Z.of_nat (length x) + off))
+  | EVal v => (None, if found then F (Z.of_nat ix) else F v)
+  end.
+
+(** effective f of a call (None when both f and cs_f are given) *)
+Definition find_F (f : option (Z -> list Z)) (cs_f : option (Z -> Z -> list Z)) : option (Z -> list Z) :=
+  match cs_f, f with
+  | None, None => Some (fun i => [i])
+  | None, Some f => Some f
+  | Some cs, None => Some (fun i => cs 0 i)
+  | Some _, Some _ => None
+  end.
+
+(** ** find returns f(index of the first occurrence of a) — or f(e) if a is absent, or the raw
+    pair — for every list, every form of a, e, f, cs_f (not both); cs_f must satisfy (star). *)
+Theorem find_correct x a bits e f cs_f F :
+  find_wf x a bits ->
+  find_F f cs_f = Some F ->
+  (forall i j, length (F i) = length (F j)) ->
+  (forall cs, cs_f = Some cs -> forall i, 0 <= i -> cs 1 i = cs 0 (i + 1)) ->
+  find x a bits e f cs_f = Some (find_result x (aval a) e F).
+Proof.
+  intros Hwf HF Hlen Hcs.
+  destruct (find_reduce_spec x a bits Hwf) as (Rb & Rl & Ri).
+  unfold find.
+  assert (Hcrash : match a with
+                   | AInt a1 => (bits && (a1 =? 1) && (length x =? 0)%nat)%bool
+                   | ASec _ => false end = false).
+  { destruct a as [a1|a1]; [|reflexivity]. destruct Hwf as [_ Hn].
+    destruct bits; [|reflexivity]. destruct (Z.eqb_spec a1 1) as [->|]; [|reflexivity].
+    destruct x; [exfalso; apply Hn; auto|reflexivity]. }
+  rewrite Hcrash.
+  assert (G : forall f' cs', (forall i, cs' 0 i = f' i) -> (forall i, 0 <= i -> cs' 1 i = f' (i + 1)) -> F = f' ->
+              find_core (find_reduce x a bits)
+                match e with ERaw => None | EStr off => Some (Z.of_nat (length (find_reduce x a bits)) + off)
+                           | EVal v => Some v end f' cs'
+              = Some (find_result x (aval a) e F)).
+  { intros f' cs' C0 C1 ->. rewrite (find_core_correct f' cs' C0 C1 Hlen) by exact Rb.
+    rewrite Ri, Rl. unfold find_result. destruct e; reflexivity. }
+  destruct cs_f as [cs|], f as [f0|]; cbn [find_F] in HF; try discriminate; injection HF as <-.
+  - apply G; [reflexivity| |reflexivity]. intros i Hi. apply (Hcs cs eq_refl). exact Hi.
+  - destruct (cs_of_f_spec f0 Hlen) as [C0 C1]. apply G; auto.
+  - apply G; [intros i; f_equal; ring | intros i _; reflexivity | reflexivity].
+Qed.
+
+(** both f and cs_f given: the call always raises (type_f unbound) *)
+Theorem find_both_refuted x a bits e f cs :
+  find x a bits e (Some f) (Some cs) = None.
+Proof. reflexivity. Qed.
+
+(* ------------------------------------------------------------------------------------- *)
+(** ** gcp2 *)
+
+Lemma zipw_or_fuse : forall x y : list Z,
+  zipw Z.sub (zipw Z.add x y) (zipw Z.mul x y) = zipw (fun a b => a + b - a * b) x y.
+Proof.
+  induction x as [|a x IH]; intros [|b y]; cbn [zipw]; try reflexivity. rewrite IH. reflexivity.
+Qed.
+
+Lemma nth_zipw (g : Z -> Z -> Z) : forall (x y : list Z) i, (i < length x)%nat -> (i < length y)%nat ->
+  nth i (zipw g x y) 0 = g (nth i x 0) (nth i y 0).
+Proof.
+  induction x as [|a x IH]; intros [|b y] i Hx Hy; cbn [length] in *; try lia.
+  destruct i as [|i]; cbn [zipw nth]; [reflexivity|]. apply IH; lia.
+Qed.
+
+Lemma zipw_or_bits : forall x y, allbits x -> allbits y -> allbits (zipw (fun a b => a + b - a * b) x y).
+Proof.
+  induction x as [|a x IH]; intros [|b y] Hx Hy; cbn [zipw]; try constructor.
+  - inversion Hx as [|? ? Ha _]; inversion Hy as [|? ? Hb _]; subst.
+    destruct Ha as [-> | ->], Hb as [-> | ->]; unfold isbit; lia.
+  - inversion Hx; inversion Hy; subst. apply IH; assumption.
+Qed.
+
+Lemma first_idx_char a : forall z t, (t < length z)%nat -> nth t z 0 = a ->
+  (forall i, (i < t)%nat -> nth i z 0 <> a) -> first_idx a z = t.
+Proof.
+  induction z as [|b z IH]; intros t Ht Hn Hlow; cbn [length] in Ht; [lia|].
+  cbn [first_idx]. destruct t as [|t].
+  - cbn [nth] in Hn. subst b. rewrite Z.eqb_refl. reflexivity.
+  - destruct (Z.eqb_spec b a) as [E|E].
+    + exfalso. apply (Hlow O); [lia|exact E].
+    + f_equal. apply IH; [lia|exact Hn|]. intros i Hi. apply (Hlow (S i)). lia.
+Qed.
+
+Lemma first_idx_absent a : forall z, (forall i, (i < length z)%nat -> nth i z 0 <> a) -> first_idx a z = length z.
+Proof.
+  induction z as [|b z IH]; intros H; [reflexivity|].
+  cbn [first_idx length]. destruct (Z.eqb_spec b a) as [E|E].
+  - exfalso. apply (H O); [cbn [length]; lia|exact E].
+  - f_equal. apply IH. intros i Hi. apply (H (S i)). cbn [length]. lia.
+Qed.
+
+Lemma low_zero A t i : A mod 2 ^ Z.of_nat t = 0 -> (i < t)%nat ->
+  A mod 2 ^ Z.of_nat i = 0 /\ (A / 2 ^ Z.of_nat i) mod 2 = 0.
+Proof.
+  intros H0 Hi.
+  assert (El : 2 ^ Z.of_nat t = 2 ^ Z.of_nat i * (2 * 2 ^ Z.of_nat (t - i - 1))).
+  { rewrite <- Z.pow_succ_r, <- Z.pow_add_r by lia. f_equal. lia. }
+  pose proof (pow2_pos i) as Pi. pose proof (pow2_pos (t - i - 1)) as Pj.
+  rewrite El in H0. rewrite Z.rem_mul_r in H0 by lia.
+  pose proof (Z.mod_pos_bound A (2 ^ Z.of_nat i) Pi) as B1.
+  pose proof (Z.mod_pos_bound (A / 2 ^ Z.of_nat i) (2 * 2 ^ Z.of_nat (t - i - 1)) ltac:(lia)) as B2.
+  set (m1 := A mod 2 ^ Z.of_nat i) in *.
+  set (m2 := (A / 2 ^ Z.of_nat i) mod (2 * 2 ^ Z.of_nat (t - i - 1))) in *.
+  assert (M1 : m1 = 0) by nia.
+  assert (M2 : m2 = 0) by nia.
+  split; [exact M1|].
+  unfold m2 in M2. rewrite Z.rem_mul_r in M2 by lia.
+  pose proof (Z.mod_pos_bound (A / 2 ^ Z.of_nat i) 2 ltac:(lia)) as B3.
+  pose proof (Z.mod_pos_bound (A / 2 ^ Z.of_nat i / 2) (2 ^ Z.of_nat (t - i - 1)) Pj) as B4.
+  lia.
+Qed.
+
+Definition tape_ok (p : Z) (L : nat) (A : Z) (l : nat) (rbits : list Z) (rdivl : Z) : Prop :=
+  length rbits = l /\ allbits rbits /\
+  0 <= A + (2 ^ Z.of_nat L + rdivl * 2 ^ Z.of_nat l + value rbits) < p.
+
+Lemma gcp2_find p L A B l ra da rb db ix :
+  (1 <= l)%nat -> allbits ra -> allbits rb ->
+  first_idx 1 (zipw (fun a b => a + b - a * b) (trailing_zeros p L A l ra da) (trailing_zeros p L B l rb db)) = ix ->
+  gcp2 p L A B l ra da rb db = Some (2 ^ Z.of_nat ix).
+Proof.
+  intros Hl Ha Hb Hix. unfold gcp2. rewrite zipw_or_fuse.
+  set (z := zipw _ _ _) in *.
+  assert (Lz : length z = l).
+  { unfold z. rewrite zipw_length; rewrite !trailing_zeros_length; reflexivity. }
+  rewrite (find_correct z (AInt 1) true ERaw None (Some (fun b i => [(b + 1) * 2 ^ i]))
+             (fun i => [(0 + 1) * 2 ^ i])).
+  - unfold find_result. cbn [aval]. rewrite Hix. f_equal. ring.
+  - split.
+    + intros _. split; [|right; reflexivity].
+      unfold z. apply zipw_or_bits; apply trailing_zeros_allbits; assumption.
+    + intros (_ & _ & Hz). rewrite Hz in Lz. cbn [length] in Lz. lia.
+  - reflexivity.
+  - reflexivity.
+  - intros cs Hcs i Hi. injection Hcs as <-. f_equal.
+    rewrite Z.pow_add_r by lia. ring.
+Qed.
+
+(** ** gcp2 a b = 2^t where t is the position of the lowest 1 of a or b (t < l) *)
+Theorem gcp2_correct p L A B l ra da rb db t :
+  (l <= L)%nat -> tape_ok p L A l ra da -> tape_ok p L B l rb db ->
+  (t < l)%nat -> A mod 2 ^ Z.of_nat t = 0 -> B mod 2 ^ Z.of_nat t = 0 ->
+  ((A / 2 ^ Z.of_nat t) mod 2 = 1 \/ (B / 2 ^ Z.of_nat t) mod 2 = 1) ->
+  gcp2 p L A B l ra da rb db = Some (2 ^ Z.of_nat t).
+Proof.
+  intros HlL (La & Ba & Wa) (Lb & Bb & Wb) Ht HA HB Hodd.
+  apply gcp2_find; try assumption; try lia.
+  apply first_idx_char.
+  - rewrite zipw_length; rewrite !trailing_zeros_length; auto.
+  - rewrite nth_zipw by (rewrite trailing_zeros_length; lia).
+    rewrite !trailing_zeros_correct by assumption.
+    pose proof (Z.mod_pos_bound (A / 2 ^ Z.of_nat t) 2 ltac:(lia)) as Xa.
+    pose proof (Z.mod_pos_bound (B / 2 ^ Z.of_nat t) 2 ltac:(lia)) as Xb.
+    set (u := (A / 2 ^ Z.of_nat t) mod 2) in *. set (v := (B / 2 ^ Z.of_nat t) mod 2) in *.
+    clearbody u v. clear - Hodd Xa Xb.
+    assert (U : u = 0 \/ u = 1) by lia. assert (V : v = 0 \/ v = 1) by lia.
+    destruct U as [-> | ->], V as [-> | ->]; lia.
+  - intros i Hi.
+    destruct (low_zero A t i HA Hi) as [A0 A1]. destruct (low_zero B t i HB Hi) as [B0 B1].
+    rewrite nth_zipw by (rewrite trailing_zeros_length; lia).
+    rewrite !trailing_zeros_correct by (try assumption; lia).
+    rewrite A1, B1. discriminate.
+Qed.
+
+(** both a and b are 0 modulo 2^l: the result is 2^l (outside the number range, see the TODO in the code) *)
+Theorem gcp2_zero p L A B l ra da rb db :
+  (l <= L)%nat -> (1 <= l)%nat -> tape_ok p L A l ra da -> tape_ok p L B l rb db ->
+  A mod 2 ^ Z.of_nat l = 0 -> B mod 2 ^ Z.of_nat l = 0 ->
+  gcp2 p L A B l ra da rb db = Some (2 ^ Z.of_nat l).
+Proof.
+  intros HlL Hl (La & Ba & Wa) (Lb & Bb & Wb) HA HB.
+  apply gcp2_find; try assumption.
+  rewrite !trailing_zeros_zero by assumption.
+  rewrite first_idx_absent.
+  - rewrite zipw_length; rewrite !repeat_length; reflexivity.
+  - intros i Hi. rewrite zipw_length in Hi by (rewrite !repeat_length; reflexivity).
+    rewrite repeat_length in Hi.
+    rewrite nth_zipw by (rewrite repeat_length; lia). rewrite !nth_repeat. lia.
+Qed.
